@@ -6,7 +6,7 @@ LEVEL_NOTE = ('assumes: the abstract lookup view cc_has/cc_get of a collection i
 from . import resolver_contracts as rc
 from . import C05_contracts as c5
 TARGETS = [rc.GAT, c5.M_CC + ":CommandConfig.default", c5.M_CC + ":CommandConfig.anonymous",
-           rc.CONTAINS, rc.CC_GET, rc.PO, rc.PA, rc.PDC, rc.PDSC]
+           rc.CONTAINS, rc.CC_GET, rc.PO, rc.PA, rc.PDC, rc.PDSC, rc.CRC]
 LEMMAS = []
 try:
     from .C03_bounded import bounded, BOUNDED_RULE  # noqa: F401
